@@ -265,6 +265,10 @@ pub enum Mutation {
     /// replace the node by the same-position node of the message of phase
     /// instance `k` sent to recipient `to` earlier by this sender (replay)
     CopyFrom { path: Vec<usize>, rcpt: usize, inst: usize },
+    /// replace the whole message by the message of the same phase (instance `inst`) that the RECIPIENT has sent to this
+    /// sender (a rushing party that waits for its peer's message and sends it back); not applicable while the peer's
+    /// message does not exist yet
+    Mirror { inst: usize },
 }
 
 #[derive(Deserialize, Serialize, Clone, Debug)]
@@ -694,7 +698,9 @@ pub fn make_tamper(devs: Vec<Dev>, applied: Rc<RefCell<Vec<bool>>>) -> Tamper {
                 applied.borrow_mut()[i] = true;
                 return SendAction::Crash;
             }
-            let new = if is_raw(&d.mutation) {
+            let new = if let Mutation::Mirror { inst } = &d.mutation {
+                hist.get(&(ctx.to, ctx.from, ctx.phase.to_string())).and_then(|v| v.get(*inst).cloned())
+            } else if is_raw(&d.mutation) {
                 apply_raw(&d.mutation, cur.clone())
             } else if let Some(s) = schema(ctx.phase) {
                 let from = ctx.from;
